@@ -344,6 +344,109 @@ def rule_lastwrite(check, cm, rule):
                      '(plain overwrite = last write wins)' % short(a.node))
 
 
+def rule_query_live(check, cm, rule):
+  """a cache query answers from the cache as it is when the query arrives (no per-connection memory of earlier answers)."""
+  from ..paths import PathExec, mentions
+  repo = check.repo
+  cx = cm.cx
+  h = repo.cls('carbon.protocols', 'CacheManagementHandler')
+  m = h.methods.get('stringReceived')
+  if m is None:
+    rule.cannot_decide('CacheManagementHandler.stringReceived not found')
+    return
+  check.analysed(m)
+  g = cx.cfg(m)
+  SELF = ('param', m.params[0])
+
+  def from_live_cache(t):
+    """the term reads the metric cache (MetricCache().get / [..] / .items()) ..."""
+    return mentions(t, lambda x: isinstance(x, tuple) and x[0] in ('meth', 'call', 'sub') and
+                    mentions(x, lambda y: y == ('call', 'MetricCache')))
+
+  def remembered(t):
+    """... and this one reads state kept on the handler object between requests"""
+    own = ('peerAddr', 'unpickler', 'transport')
+    return mentions(t, lambda x: isinstance(x, tuple) and (
+      (x[0] == 'attr' and x[1] == SELF and x[2] not in own) or
+      (x[0] == 'call' and isinstance(x[1], str) and x[1].startswith(SELF[1] + '.') and x[1].split('.')[1] not in own)))
+  # the values put into the response under datapoints= / datapointsByMetric[...]
+  sites = []
+  for n in g.nodes:
+    if n.kind != 'stmt' or n.ast is None:
+      continue
+    for c in g.calls(n):
+      if isinstance(c.func, ast.Name) and c.func.id == 'dict':
+        for kw in c.keywords:
+          if kw.arg == 'datapoints':
+            sites.append((n, kw.value, 'cache-query'))
+    if isinstance(n.ast, ast.Assign):
+      for t in n.ast.targets:
+        if isinstance(t, ast.Subscript) and isinstance(t.value, ast.Name) and 'datapointsByMetric' in t.value.id:
+          sites.append((n, n.ast.value, 'cache-query-bulk'))
+  if not sites:
+    rule.cannot_decide('no datapoints= / datapointsByMetric[...] value found in CacheManagementHandler.stringReceived')
+    return
+  px = PathExec(cx, m, unroll=0, follow_exceptions=False)
+  judged = set()
+  for hit in px.run({n for n, _, _ in sites}):
+    for n, e, what in sites:
+      if n is not hit.node:
+        continue
+      t = hit.term(e, px)
+      key = (what, t)
+      if key in judged:
+        continue
+      judged.add(key)
+      if remembered(t):
+        rule.violate('%s answered from memory' % what, m, e, 'the datapoints returned for a %s can come from state remembered on the '
+                     'connection (`%s`): a store that overwrites a cached timestamp changes neither the entry object nor its length, '
+                     'so the accepted value is neither returned by the query nor drained yet' % (what, short(e)))
+      elif from_live_cache(t):
+        rule.ok('%s reads the cache when the request arrives' % what, m.loc(e))
+      elif t in (('list',), ('tuple',)) and any(pol == 'F' and isinstance(c, tuple) and c[0] == 'truth' and from_live_cache(c[1])
+                                                  for pol, c, a_, n_ in hit.conds):
+        rule.ok('%s: nothing cached for the metric right now -> empty answer' % what, m.loc(e))
+      else:
+        rule.cannot_decide('%s: the source of `%s` is not recognised' % (what, short(e)))
+  if px.truncated:
+    rule.cannot_decide('too many paths through CacheManagementHandler.stringReceived')
+
+
+def rule_side_tables(check, cm, rule):
+  """a per-metric table kept next to the cache entries loses a metric's entry wherever the metric leaves the cache."""
+  tables = {}
+  for name, m in cm.methods.items():
+    for n in walk_no_nested(m.node, include_self=False):
+      if isinstance(n, ast.Assign):
+        for t in n.targets:
+          if isinstance(t, ast.Subscript) and isinstance(t.value, ast.Attribute) and cm.is_self(t.value.value) and \
+             isinstance(t.slice, ast.Name) and t.slice.id in m.params:
+            tables.setdefault(t.value.attr, []).append((m, n))
+  init = cm.cls.methods.get('__init__')
+  if not tables:
+    rule.ok('the cache keeps no per-metric table besides its entries', cm.cls.methods['__init__'].loc() if init else 'lib/carbon/cache.py')
+    return
+  for attr, sites in sorted(tables.items()):
+    for name, m in sorted(cm.methods.items()):
+      for a in cm.accesses[name]:
+        removal = (a.kind == 'struct-write' and 'pop' in a.detail) or (isinstance(a.node, ast.Delete))
+        if not removal or not isinstance(a.node, (ast.Call, ast.Assign, ast.Expr, ast.Delete)):
+          continue
+        scope = a.block if a.block is not None else m.node
+        cleared = [c for c in ast.walk(scope) if (isinstance(c, ast.Call) and isinstance(c.func, ast.Attribute) and
+                                                  c.func.attr in ('pop', '__delitem__') and isinstance(c.func.value, ast.Attribute) and
+                                                  c.func.value.attr == attr) or
+                   (isinstance(c, ast.Delete) and any(isinstance(t, ast.Subscript) and isinstance(t.value, ast.Attribute) and
+                                                      t.value.attr == attr for t in c.targets))]
+        if cleared:
+          rule.ok('%s(): self.%s is cleared together with the cache entry' % (name, attr), m.loc(a.node))
+        else:
+          rule.violate('self.%s outlives the entry' % attr, m, a.node, '%s() removes a metric from the cache but leaves its entry in '
+                       'self.%s (maintained by %s): when the metric is stored again the stale entry is merged with the new data '
+                       '(e.g. an old "oldest timestamp" lets a fresh datapoint pass the MIN_TIMESTAMP_LAG filter)'
+                       % (name, attr, sites[0][0].name))
+
+
 def rule_owner(check, cm, rule):
   """nothing outside the cache class writes its state or auto-vivifies entries."""
   T = check.types
@@ -420,3 +523,7 @@ def run(check):
   rule_lastwrite(check, cm, r5)
   r6 = check.rule('R-C02-owner', 1, rule_owner.__doc__)
   rule_owner(check, cm, r6)
+  r7 = check.rule('R-C02-query-live', 2, rule_query_live.__doc__)
+  rule_query_live(check, cm, r7)
+  r8 = check.rule('R-C02-side-tables', 1, rule_side_tables.__doc__)
+  rule_side_tables(check, cm, r8)
